@@ -120,7 +120,13 @@ def _eval_global(case):
             f.append(dict(kind='property', key='rc:range', detail=dict(got=g, lo=lo, hi=hi, iz=iz)))
         err = abs(Fraction(g) - spec) if g == g else Fraction(1)
         if err > Fraction(1, 10**12) * max(1, abs(spec)):
-            if margin <= Fraction(1, 10**9) * max(1, abs(spec)):
+            model_exact = Fraction(core.bits2f(int(dr['model']))) == spec
+            if margin == 0 and model_exact:
+                # an EXACT tie m(t) = t+1 on which the transliterated double computation is itself exact (small integer
+                # / dyadic class means): there is no rounding to blame, the rule says stop here
+                f.append(dict(kind='property', key='rc:rule',
+                              detail=dict(got=g, spec=float(spec), spec_exact=dr['spec'], iz=iz, exact_tie=True)))
+            elif margin <= Fraction(1, 10**9) * max(1, abs(spec)):
                 near['rc'] = near.get('rc', 0) + 1
                 judged = False
             else:
